@@ -517,3 +517,281 @@ def show_canon(xs: Sequence[tuple]) -> str:
         elif k == 'raise':
             parts.append('RAISE')
     return ' · '.join(parts)
+
+
+# --------------------------------------------------------------------------------------
+# R2 / R3 / R5 / R8 on the Python side
+# --------------------------------------------------------------------------------------
+
+
+def _first_diff(a: Sequence[tuple], b: Sequence[tuple]) -> str:
+    for i in range(max(len(a), len(b))):
+        if i >= len(a):
+            return f'writer ends, reader continues with {show_canon([b[i]])}'
+        if i >= len(b):
+            return f'reader ends, writer continues with {show_canon([a[i]])}'
+        if a[i] != b[i]:
+            x, y = a[i], b[i]
+            if x[0] == y[0] == 'loop' and x[1] == y[1]:
+                return f'inside LOOP[{x[1]}]: ' + _first_diff(x[2], y[2])
+            if x[0] == y[0] == 'present':
+                return 'inside IFPRESENT: ' + _first_diff(x[1], y[1])
+            if x[0] == y[0] == 'cond' and x[1] == y[1]:
+                return f'inside IF[{x[1]}]: ' + (_first_diff(x[2], y[2]) if x[2] != y[2] else _first_diff(x[3], y[3]))
+            return f'item {i}: writer {show_canon([x])} vs reader {show_canon([y])}'
+    return ''
+
+
+def _python_side(ctx: Ctx, m: pf.Module, classes: Dict[str, ast.ClassDef]) -> Dict[str, Tuple[List[tuple], Canon, Canon]]:
+    canon: Dict[str, Tuple[List[tuple], Canon, Canon]] = {}
+    base = W.methods(m.cls('HailType'))
+    for nm in (TO, FROM):
+        ctx.need(nm in base and W._only_raises(base[nm]), f'HailType.{nm} is no longer the raising default')
+    for cname, c in classes.items():
+        ms = W.methods(c)
+        hw, hr = TO in ms, FROM in ms
+        cons = f'{F}::{cname}::{TO}/{FROM}'
+        if hw != hr:
+            have, lack = (TO, FROM) if hw else (FROM, TO)
+            ctx.bad('R2', cons, f'class {cname} overrides {have} but not {lack}: values of this type can be '
+                    + ('sent to the engine but results cannot be decoded' if hw else 'decoded but not encoded') + ' (the base class raises)', m.path, ms[have].lineno)
+            continue
+        if not hw:
+            ctx.ok('R2', cons, 'neither direction overridden (not encodable)', nontrivial=False)
+            continue
+        cw = Canon(ctx, m, cname, ms[TO], 'w')
+        cr = Canon(ctx, m, cname, ms[FROM], 'r')
+        pw, pr = cw.canon(), cr.canon()
+        if pw == pr:
+            ctx.ok('R2', cons, {'wire': show_canon(pw)})
+        else:
+            ctx.bad('R2', cons, f'wire programs differ - {_first_diff(pw, pr)}. writer: {show_canon(pw)} | reader: {show_canon(pr)}', m.path, ms[FROM].lineno)
+        canon[cname] = (pw, cw, cr)
+        # presence test guards the component that is encoded, in the order of the missing bits
+        for subj, present, test in cw.facts.get('present_w', []):
+            recs = [it for it in W.flatten_prims(present) if it[0] == 'rec']
+            for r in recs:
+                arg = r[2]['arg']
+                ctx.check(arg is not None and pf.nsrc(arg) == pf.nsrc(subj), 'R2', f'{F}::{cname}.{TO}::presence test subject',
+                          f'`{pf.nsrc(test)}` guards the encoding of `{pf.nsrc(arg) if arg is not None else "?"}`: the component tested for missingness is not the one written',
+                          m.path, test.lineno)
+        # every delegated call forwards the stream and (reader) the freeze flag or True
+        for it in cr.facts.get('recs', []):
+            info = it[2]
+            flags = list(info['args']) + [v for k, v in info['kwargs'].items() if k == '_should_freeze']
+            if cname in ('tlocus',):
+                continue  # a locus has no nested containers
+            txt = pf.nsrc(flags[0]) if flags else None
+            ctx.check(txt in ('_should_freeze', 'True'), 'R2', f'{F}::{cname}.{FROM}::{pf.nsrc(it[1])} freeze flag',
+                      f'nested decode `{pf.nsrc(info["node"])[:90]}` does not forward the freeze flag (passes {txt}): a list/dict nested in a set element or dict key stays unhashable '
+                      f'and building the enclosing set/dict raises TypeError', m.path, info['node'].lineno)
+    # hashed positions are decoded frozen
+    for cname, recv in (('tset', 'self._array_repr'), ('_freeze_this_type', 'self.t')):
+        ctx.need(cname in canon, f'anchor vanished: {cname} encoders')
+        recs = [it for it in canon[cname][2].facts.get('recs', []) if pf.nsrc(it[1]) == recv]
+        ctx.need(len(recs) == 1, f'{cname}.{FROM}: expected one delegated decode on {recv}')
+        info = recs[0][2]
+        flags = list(info['args']) + [v for k, v in info['kwargs'].items() if k == '_should_freeze']
+        ok = len(flags) == 1 and isinstance(flags[0], ast.Constant) and flags[0].value is True
+        ctx.check(ok, 'R2', f'{F}::{cname}.{FROM}::decoded frozen',
+                  f'{"set elements" if cname == "tset" else "dict keys"} are decoded with _should_freeze={pf.nsrc(flags[0]) if flags else "default False"}: an array-typed one comes back '
+                  f'as an unhashable list and set()/dict insertion raises TypeError', m.path, info['node'].lineno)
+    return canon
+
+
+def _index_of_bit(ctx: Ctx, e: ast.AST, i: str, j: str) -> bool:
+    return pf.nsrc(e) in (f'{i} + {j}', f'{j} + {i}')
+
+
+def _r3(ctx: Ctx, m: pf.Module, canon: Dict[str, Tuple[List[tuple], Canon, Canon]]):
+    n_w = n_r = 0
+    for cname, (_, cw, cr) in canon.items():
+        for info in cw.facts.get('missing_w', []):
+            n_w += 1
+            cons = f'{F}::{cname}.{TO}::missing-byte loop'
+            msg = []
+            if info['step'] != 8:
+                msg.append(f'the element counter advances by {info["step"]} per byte written (expected 8)')
+            if info['chunk'] != 8:
+                msg.append(f'each byte collects up to {info["chunk"]} elements (expected 8)')
+            if W.const_int(info['init']) != 0:
+                msg.append(f'the loop starts at element {pf.nsrc(info["init"])}')
+            if W.const_int(info['acc_init']) != 0:
+                msg.append(f'the byte accumulator starts at {pf.nsrc(info["acc_init"])}')
+            bit = info['bit']
+            if not (isinstance(bit, ast.BinOp) and isinstance(bit.op, ast.LShift) and W.const_int(bit.left) == 1 and pf.nsrc(bit.right) == info['j']):
+                msg.append(f'the bit set for element i+j is `{pf.nsrc(bit)}` (expected 1 << {info["j"]}, least-significant bit first)')
+            if info['write'] != 'write_byte':
+                msg.append(f'the accumulator is written with {info["write"]}')
+            # subject: value[i + j] | value[K[i + j]] with K the field-name list
+            subj = info['subject']
+            okidx = False
+            if isinstance(subj, ast.Subscript) and pf.nsrc(subj.value) == cw.value:
+                idx = subj.slice
+                if _index_of_bit(ctx, idx, info['i'], info['j']):
+                    okidx = True
+                elif isinstance(idx, ast.Subscript) and _index_of_bit(ctx, idx.slice, info['i'], info['j']):
+                    k = _resolve(cw.fn, idx.value)
+                    okidx = pf.nsrc(k) in FIELD_SEQS
+            ctx.need(okidx or isinstance(subj, ast.Subscript), f'{cname}.{TO}: missing-bit subject `{pf.nsrc(subj)}` unrecognised')
+            if not okidx:
+                msg.append(f'bit {info["j"]} of the byte starting at element {info["i"]} is taken from `{pf.nsrc(subj)}`, not from element {info["i"]} + {info["j"]}')
+            ctx.check(not msg, 'R3', cons, '; '.join(msg) + ': the engine (and the Python reader) look up element e at bit e % 8 of byte e // 8', m.path, info['node'].lineno,
+                      detail={'step': info['step'], 'chunk': info['chunk']})
+        for info, (lk, test) in zip(cr.facts.get('missing_r', []), cr.facts.get('lookup_r', [])):
+            n_r += 1
+            cons = f'{F}::{cname}.{FROM}::missing-bit addressing'
+            msg = []
+            if info['div'] != 8:
+                msg.append(f'reads ceil(n / {info["div"]}) missing bytes (expected ceil(n / 8))')
+            ctx.need(info['bind'] is not None, f'{cname}.{FROM}: missing bytes are not bound to a name')
+            mb = info['bind']
+            # counter of the enclosing loop
+            counter = None
+            for tag, linfo in cr.facts.get('loops', []):
+                if linfo['kind'] == 'while':
+                    counter = linfo['counter']
+                elif isinstance(linfo.get('iter'), ast.Call) and pf.dotted(linfo['iter'].func) == 'enumerate' and isinstance(linfo['target'], ast.Tuple) \
+                        and isinstance(linfo['target'].elts[0], ast.Name):
+                    counter = linfo['target'].elts[0].id
+            ctx.need(counter is not None, f'{cname}.{FROM}: element counter of the decode loop not found')
+            byte_e, bit_e = lk.args
+            # resolve through the two helper assignments inside the loop
+            asg: Dict[str, List[ast.AST]] = {}
+            guards: Dict[str, Optional[ast.expr]] = {}
+            par = m.parents()
+            for n in ast.walk(cr.fn):
+                if isinstance(n, ast.Assign) and len(n.targets) == 1 and isinstance(n.targets[0], ast.Name):
+                    asg.setdefault(n.targets[0].id, []).append(n.value)
+                    p = par.get(n)
+                    guards[n.targets[0].id] = p.test if isinstance(p, ast.If) and n in p.body else None
+            bit_x = bit_e
+            if isinstance(bit_e, ast.Name):
+                vals = [v for v in asg.get(bit_e.id, [])]
+                ctx.need(len(vals) == 1, f'{cname}.{FROM}: `{bit_e.id}` has {len(vals)} definitions')
+                bit_x = vals[0]
+            okbit = isinstance(bit_x, ast.BinOp) and isinstance(bit_x.op, ast.Mod) and pf.nsrc(bit_x.left) == counter and W.const_int(bit_x.right) is not None
+            ctx.need(okbit, f'{cname}.{FROM}: bit index `{pf.nsrc(bit_x)}` is not {counter} % k')
+            if W.const_int(bit_x.right) != 8:
+                msg.append(f'bit index is `{pf.nsrc(bit_x)}` (expected {counter} % 8)')
+            byte_x = byte_e
+            refresh_guard = None
+            if isinstance(byte_e, ast.Name):
+                vals = [v for v in asg.get(byte_e.id, []) if not (isinstance(v, ast.Constant) and v.value is None)]
+                ctx.need(len(vals) == 1, f'{cname}.{FROM}: `{byte_e.id}` has {len(vals)} non-trivial definitions')
+                byte_x = vals[0]
+                refresh_guard = guards.get(byte_e.id)
+            okbyte = (isinstance(byte_x, ast.Subscript) and pf.nsrc(byte_x.value) == mb and isinstance(byte_x.slice, ast.BinOp) and isinstance(byte_x.slice.op, ast.FloorDiv)
+                      and pf.nsrc(byte_x.slice.left) == counter and W.const_int(byte_x.slice.right) is not None)
+            ctx.need(okbyte, f'{cname}.{FROM}: missing byte `{pf.nsrc(byte_x)}` is not {mb}[{counter} // k]')
+            if W.const_int(byte_x.slice.right) != 8:
+                msg.append(f'missing byte is `{pf.nsrc(byte_x)}` (expected {mb}[{counter} // 8])')
+            if refresh_guard is not None:
+                okg = (isinstance(refresh_guard, ast.Compare) and len(refresh_guard.ops) == 1 and isinstance(refresh_guard.ops[0], ast.Eq)
+                       and W.const_int(refresh_guard.comparators[0]) == 0 and pf.nsrc(refresh_guard.left) in (pf.nsrc(bit_e), pf.nsrc(bit_x)))
+                if not okg:
+                    msg.append(f'the current missing byte is refreshed under `{pf.nsrc(refresh_guard)}`, not at every bit index 0')
+            ctx.check(not msg, 'R3', cons, '; '.join(msg) + ': the writer (and the engine) store element e at bit e % 8 of byte e // 8', m.path, test.lineno)
+    ctx.need(n_w >= 3 and n_r >= 3, f'expected missing-bit idioms in array/struct/tuple on both sides, found {n_w} writers / {n_r} readers')
+    # lookup_bit
+    mm = pf.load(MISC)
+    lb = mm.func('lookup_bit')
+    b, w = W.param_names(lb)
+    body = W.body_wo_doc(lb)
+    ctx.need(len(body) == 1 and isinstance(body[0], ast.Return), f'{MISC}::lookup_bit: unrecognised body')
+    sm = X.shift_mask(X.from_py(body[0].value), b)
+    e = X.from_py(body[0].value)
+    ok = e == ('bin', '&', ('bin', '>>', ('name', b), ('name', w)), ('int', 1)) or e == ('bin', '&', ('int', 1), ('bin', '>>', ('name', b), ('name', w)))
+    ctx.check(ok, 'R3', f'{MISC}::lookup_bit', f'lookup_bit returns `{pf.nsrc(body[0].value)}`, expected ({b} >> {w}) & 1 (bit {w} counted from the least-significant end)', mm.path, lb.lineno)
+
+
+def _r8(ctx: Ctx, m: pf.Module, canon: Dict[str, Tuple[List[tuple], Canon, Canon]]):
+    ctx.need('_tstr' in canon, 'anchor vanished: _tstr encoders')
+    _, cw, cr = canon['_tstr']
+    ctx.need('codec_w' in cw.facts, f'_tstr.{TO}: bytes written are not produced by .encode(...)')
+    enc, arg = cw.facts['codec_w']
+    wcodec = pf.const_str(enc.args[0]) if enc.args else 'utf-8'
+    ctx.need(pf.nsrc(enc.func.value) == cw.value, f'_tstr.{TO}: encodes `{pf.nsrc(enc.func.value)}`, not the value')
+    # reader: read_bytes(n).decode(codec)
+    dec = [n for n in ast.walk(cr.fn) if isinstance(n, ast.Call) and isinstance(n.func, ast.Attribute) and n.func.attr == 'decode']
+    ctx.need(len(dec) == 1, f'_tstr.{FROM}: expected one .decode(...)')
+    rcodec = pf.const_str(dec[0].args[0]) if dec[0].args else 'utf-8'
+    ctx.need(wcodec is not None and rcodec is not None, '_tstr: non-literal codec')
+    norm = lambda s: s.lower().replace('_', '-').replace('utf8', 'utf-8')
+    ctx.check(norm(wcodec) == norm(rcodec) == 'utf-8', 'R8', f'{F}::_tstr::codec',
+              f'strings are written as {wcodec!r} and read as {rcodec!r}; the engine stores strings as UTF-8 bytes: non-ASCII text does not round-trip', m.path, dec[0].lineno,
+              detail={'codec': wcodec})
+    # the prefix counts encoded bytes: guaranteed by the canonical form (I32(len B) BYTES[B]); record which expression is measured
+    pw = canon['_tstr'][0]
+    ctx.check(pw == [('lenprefix', '@0'), ('bytes', '@0')], 'R8', f'{F}::_tstr::length prefix counts the bytes written',
+              f'wire program of the string writer is `{show_canon(pw)}`: the int32 prefix is not the length of the byte string that follows '
+              f'(e.g. len(value) counts characters, which differs from the UTF-8 byte count for non-ASCII text)', m.path, cw.fn.lineno)
+
+
+def _numeric_fast_path_dead(ctx: Ctx, m: pf.Module, classes: Dict[str, ast.ClassDef]) -> Optional[str]:
+    """`self.element_type in _numeric_types` is always False when _numeric_types is a set display of *class* names of this module and
+    HailType.__eq__ rejects non-instances, no subclass overrides __eq__/__hash__-based identity, and there is no metaclass."""
+    try:
+        s = m.global_assign('_numeric_types')
+    except AnalysisError:
+        return None
+    if not (isinstance(s, ast.Set) and all(isinstance(e, ast.Name) and e.id in classes for e in s.elts)):
+        return None
+    ht = m.cls('HailType')
+    if ht.keywords:
+        return None
+    ms = W.methods(ht)
+    if '__eq__' not in ms:
+        return None
+    b = W.body_wo_doc(ms['__eq__'])
+    other = W.param_names(ms['__eq__'])[1]
+    if not (len(b) == 1 and isinstance(b[0], ast.Return) and isinstance(b[0].value, ast.BoolOp) and isinstance(b[0].value.op, ast.And)
+            and pf.nsrc(b[0].value.values[0]) == f'isinstance({other}, HailType)'):
+        return None
+    for cn, c in classes.items():
+        if '__eq__' in W.methods(c) or c.keywords:
+            return None
+    return ('_numeric_types is a set of classes ' + pf.nsrc(s) + ' while element_type is an instance; HailType.__eq__ requires isinstance(other, HailType), '
+            'no subclass overrides __eq__, no metaclass: the membership test is always False')
+
+
+def _r5(ctx: Ctx, m: pf.Module, classes: Dict[str, ast.ClassDef], canon: Dict[str, Tuple[List[tuple], Canon, Canon]]):
+    ctx.need('tndarray' in canon, 'anchor vanished: tndarray encoders')
+    pw, cw, cr = canon['tndarray']
+    # shape
+    ok = len(pw) >= 1 and pw[0] == ('loop', 'ndim', [('prim', 'i64')])
+    ctx.check(ok, 'R5', f'{F}::tndarray::shape header', f'wire program `{show_canon(pw)}` does not start with one int64 per dimension', m.path, cw.fn.lineno)
+    # element order
+    ctx.need('nditer_order' in cw.facts, f'tndarray.{TO}: elements are not iterated with np.nditer(value, order=…)')
+    order, node = cw.facts['nditer_order']
+    ctx.check(order == 'F', 'R5', f'{F}::tndarray.{TO}::element order',
+              f'elements are written in np.nditer order {order!r}; the engine (ENDArrayColumnMajor) and the Python reader expect column-major: every array with ndim >= 2 arrives transposed', m.path, node.lineno)
+    rorder = None
+    rnode = None
+    for n in ast.walk(cr.fn):
+        if isinstance(n, ast.Call) and pf.dotted(n.func) in ('np.ndarray', 'numpy.ndarray') and any(k.arg == 'buffer' for k in n.keywords):
+            # only the general (non fast-path) branch builds from the decoded element list
+            if any(isinstance(x, ast.Name) and x.id == 'elements' for x in ast.walk(n)) or rnode is None:
+                rorder = 'C'
+                rnode = n
+                for k in n.keywords:
+                    if k.arg == 'order':
+                        rorder = k.value.value if isinstance(k.value, ast.Constant) else '?'
+    ctx.need(rnode is not None, f'tndarray.{FROM}: result is not built with np.ndarray(shape=…, buffer=…)')
+    ctx.check(rorder == 'F', 'R5', f'{F}::tndarray.{FROM}::element order',
+              f'decoded elements are laid out in order {rorder!r}; the stream is column-major: every array with ndim >= 2 comes back transposed', m.path, rnode.lineno)
+    # raw-buffer fast path
+    has_fast = any(it[0] == 'cond' and it[1] == 'numeric-fast-path' for it in _flat(pw))
+    cons = f'{F}::tndarray::raw-buffer fast path'
+    if not has_fast:
+        ctx.ok('R5', cons, 'absent')
+    else:
+        why = _numeric_fast_path_dead(ctx, m, classes)
+        if why is not None:
+            ctx.ok('R5', cons, {'dead': why})
+            ctx.info(f'{F}::tndarray: the numeric raw-buffer fast path of _convert_to/from_encoding is dead code ({why}); if revived it would send C-ordered arrays '
+                     f'row-major, and the reader side multiplies the bound method `_byte_size` (missing call parentheses)')
+        else:
+            ctx.bad('R5', cons, 'the numeric fast path is (or may be) live: it writes `value.data`, the array\'s memory buffer, which is row-major for C-ordered arrays and '
+                                'not available for non-contiguous ones, while the engine decodes column-major: np.array([[1, 2], [3, 4]]) arrives as [[1, 3], [2, 4]]',
+                    m.path, cw.facts['numeric_cond'].lineno)
